@@ -361,6 +361,7 @@ PLANS = {
     "C06": plan(["flow_q"], ["flow_t"], ["flow_q"], ["flow_t"], W_Q, W_T, reach=["Received"]),
     "C07": plan(["ibc_q"], ["ibc_t"], ["ibc_q"], ["ibc_t"], W_Q, W_T, reach=["Refundable"]),
     "C08": plan(["gate_q"], ["gate_t"], ["gate_q"], ["gate_t"], W_Q, W_T),
+    "C09": plan(["gate_q"], ["gate_t"], ["gate_q"], ["gate_t"], W_Q, W_T, scen=["C09"]),
     "C10": plan(["gate_q"], ["gate_t"], ["gate_q"], ["gate_t"], W_Q, W_T),
     "C11": plan(["flow_q", "flow_treasury_q"], ["flow_t", "flow_treasury_t"], ["flow_treasury_q"], ["flow_t", "flow_treasury_t"], W_Q, W_T),
     "C12": plan(["own"], ["own_t"], ["own"], ["own_t"], [("admin", 10, 60)], [("admin", 150, 70)]),
@@ -482,7 +483,43 @@ def hook_c19(binp, tier, seed, wd):
     return extra, viols
 
 
-HOOKS = {"C04": hook_c04, "C19": hook_c19}
+def small_trace_check(spec, trace, wd, timeout=600):
+    """runs one of the single-purpose trace specs (HookTrace, QueryTrace, ...) and returns its findings"""
+    rc, out, wall = tlc(os.path.join(SPEC, spec + ".tla"), os.path.join(SPEC, spec + ".cfg"), wd, env={"TRACE": trace}, timeout=timeout)
+    n = sum(1 for _ in open(trace))
+    if f"TRACE-CONSUMED {n}" not in out:
+        raise ToolError(f"{spec} did not consume {trace}\n" + out[-2000:])
+    fs = []
+    for x in out.splitlines():
+        m2 = FIND_RE.match(x.strip())
+        if m2:
+            rec = json.loads(unq(m2.group(1)))
+            fs.extend(rec.get("fs", [rec]))
+    return n, fs, wall
+
+
+def hook_c09(binp, tier, seed, wd):
+    extra, viols = {}, []
+    nvec = 400 if tier == "quick" else 3000
+    hv = os.path.join(wd, "hookvec.ndjson")
+    mwh(binp, ["hookvec", seed, nvec, hv])
+    n, fs, wall = small_trace_check("HookTrace", hv, wd)
+    log(f"[hook] {n} (channel, sender, prefix) triples: contract derivation vs simulator's keeper transcription, {len(fs)} findings ({wall:.1f}s)")
+    extra["derivation_vectors"] = n
+    extra["derivation_findings"] = len(fs)
+    if fs:
+        viols.append(("hookvec", hv, fs[0]))
+    cfg = os.path.join(wd, "HookLemma.cfg")
+    open(cfg, "w").write(f"SPECIFICATION Spec\nCONSTANT MaxLen = {3 if tier == 'quick' else 4}\nINVARIANT Unambiguous\nCHECK_DEADLOCK FALSE\n")
+    rc, out, wall = tlc(os.path.join(SPEC, "HookLemma.tla"), cfg, wd, workers=4, timeout=900)
+    if "No error has been found" not in out:
+        raise ToolError("HookLemma: the unambiguity lemma fails in the specification\n" + out[-1500:])
+    log(f"[hook] unambiguity lemma checked exhaustively for strings up to length {3 if tier == 'quick' else 4} ({wall:.1f}s)")
+    extra["unambiguity_lemma_maxlen"] = 3 if tier == "quick" else 4
+    return extra, viols
+
+
+HOOKS = {"C04": hook_c04, "C19": hook_c19, "C09": hook_c09}
 
 
 def run_property(prop, tier, seed):
@@ -516,6 +553,11 @@ def run_property(prop, tier, seed):
         mwh(binp, ["walk", out, seed, runs, steps, mode])
         traces.append((out, f"walk-{mode}"))
         nruns += runs
+    for sc in pl["scen"]:
+        out = os.path.join(wd, f"scen-{sc}.ndjson")
+        mwh(binp, ["exec", os.path.join(ROOT, "scenarios", sc + ".ndjson"), out])
+        traces.append((out, f"scen-{sc}"))
+        nruns += 1
     for runs, steps, extreme in pl["wide"][tier]:
         out = os.path.join(wd, f"wide-{extreme}.ndjson")
         mwh(binp, ["wide", out, seed, runs, steps, extreme])
